@@ -51,6 +51,39 @@ BoxIoU(a, b) ==
     LET i == Inter1(<<a[1], a[3]>>, <<b[1], b[3]>>) * Inter1(<<a[2], a[4]>>, <<b[2], b[4]>>)
     IN  <<i, BoxArea(a) + BoxArea(b) - i>>
 
+(* Rectilinear regions: a BoundingBox, or a Polygon / MultiPolygon all of whose rings (shells and holes) are       *)
+(* axis-parallel rectangles, holes inside their shell, parts disjoint.  The region's indicator is the sum of its     *)
+(* shells minus the sum of its holes, so areas and intersection areas are sums of products of interval overlaps:     *)
+(* the exact area intersection-over-union the property's title promises, interior rings included.                    *)
+RingBox(r) == LET T == {r[i][1] : i \in DOMAIN r}  F == {r[i][2] : i \in DOMAIN r}
+              IN  <<SetMin(T), SetMin(F), SetMax(T), SetMax(F)>>
+IsRectRing(r) == LET b == RingBox(r) IN
+    /\ Len(r) = 5 /\ r[1] = r[5]
+    /\ {r[i] : i \in 1..4} = {<<b[1], b[2]>>, <<b[3], b[2]>>, <<b[3], b[4]>>, <<b[1], b[4]>>}
+    /\ \A i \in 1..4 : r[i][1] = r[i + 1][1] \/ r[i][2] = r[i + 1][2]
+PolyRings(g) == CASE g.type = "Polygon"      -> <<g.coordinates>>
+                  [] g.type = "MultiPolygon" -> g.coordinates
+                  [] OTHER                   -> <<>>
+Rectilinear(g) == \/ g.type = "BoundingBox"
+                  \/ /\ g.type \in {"Polygon", "MultiPolygon"}
+                     /\ \A p \in DOMAIN PolyRings(g) : \A k \in DOMAIN PolyRings(g)[p] : IsRectRing(PolyRings(g)[p][k])
+RECURSIVE Flat(_)
+Flat(ss) == IF ss = <<>> THEN <<>> ELSE Head(ss) \o Flat(Tail(ss))
+\* shells and holes as sequences of boxes <<t0, f0, t1, f1>>
+Shells(g) == IF g.type = "BoundingBox" THEN <<g.coordinates>>
+             ELSE [p \in DOMAIN PolyRings(g) |-> RingBox(PolyRings(g)[p][1])]
+Holes(g)  == IF g.type = "BoundingBox" THEN <<>>
+             ELSE Flat([p \in DOMAIN PolyRings(g) |-> [k \in 1..(Len(PolyRings(g)[p]) - 1) |-> RingBox(PolyRings(g)[p][k + 1])]])
+BoxInter(a, b) == Inter1(<<a[1], a[3]>>, <<b[1], b[3]>>) * Inter1(<<a[2], a[4]>>, <<b[2], b[4]>>)
+RECURSIVE SumSeq(_)
+SumSeq(s) == IF s = <<>> THEN 0 ELSE Head(s) + SumSeq(Tail(s))
+CrossSum(xs, ys) == SumSeq(Flat([i \in DOMAIN xs |-> [j \in DOMAIN ys |-> BoxInter(xs[i], ys[j])]]))
+RectArea(g) == SumSeq([i \in DOMAIN Shells(g) |-> BoxArea(Shells(g)[i])]) - SumSeq([i \in DOMAIN Holes(g) |-> BoxArea(Holes(g)[i])])
+RectInter(a, b) == CrossSum(Shells(a), Shells(b)) - CrossSum(Shells(a), Holes(b))
+                   - CrossSum(Holes(a), Shells(b)) + CrossSum(Holes(a), Holes(b))
+RectIoU(a, b) == LET i == RectInter(a, b) IN <<i, RectArea(a) + RectArea(b) - i>>
+RectPair(ga, gb) == ga.type \in AreaKinds /\ gb.type \in AreaKinds /\ Rectilinear(ga) /\ Rectilinear(gb)
+
 TimeOnlyPair(k1, k2) == k1 \in TimeKinds \/ k2 \in TimeKinds
 BoxPair(k1, k2)      == k1 = "BoundingBox" /\ k2 = "BoundingBox"
 
@@ -109,6 +142,7 @@ ExactTimeOnly(ga, gb, tb, v) ==
         => \E r \in Readings : EqRat(v, TimeIoU(PExt(ga, tb, r), PExt(gb, tb, r)))
 ExactBox(ga, gb, v) ==
     BoxPair(ga.type, gb.type) => EqRat(v, BoxIoU(ga.coordinates, gb.coordinates))
+ExactRect(ga, gb, v) == RectPair(ga, gb) => EqRat(v, RectIoU(ga, gb))
 \* the calls of a lattice session as <<ga, gb, v>> (a sequence: the geometries have different shapes)
 Calls(o, run) ==
     <<  <<o.in.g1, o.in.g2, run.v12>>, <<o.in.g2, o.in.g1, run.v21>>,
@@ -123,7 +157,7 @@ ObsDisjoint(o, s) ==
 \* neither buffered geometry reaches time 0
 AwayFromZero(o, s) == /\ Pos(RecExt(K1(o), s.e1, 1)[1]) /\ Pos(RecExt(K2(o), s.e2, 1)[1])
 
-Clauses == {"Range", "Sym", "Self", "DisjointInTime", "BoxIoU", "TimeOnly", "Shift"}
+Clauses == {"Range", "Sym", "Self", "DisjointInTime", "BoxIoU", "RectIoU", "TimeOnly", "Shift"}
 
 HoldsRun(cl, o, run) ==
     LET tb == o.in.tb  fb == o.in.fb IN
@@ -150,6 +184,10 @@ HoldsRun(cl, o, run) ==
       [] cl = "BoxIoU" ->
             IsLat(o) => \A k \in 1..Len(Calls(o, run)) :
                             LET c == Calls(o, run)[k] IN ExactBox(c[1], c[2], c[3])
+      \* the same, for regions bounded by axis-parallel rectangles (polygons and multi-polygons with holes)
+      [] cl = "RectIoU" ->
+            IsLat(o) => \A k \in 1..Len(Calls(o, run)) :
+                            LET c == Calls(o, run)[k] IN ExactRect(c[1], c[2], c[3])
       [] cl = "TimeOnly" ->
             /\ IsLat(o) => \A k \in 1..Len(Calls(o, run)) :
                             LET c == Calls(o, run)[k] IN ExactTimeOnly(c[1], c[2], tb, c[3])
